@@ -295,6 +295,22 @@ fn insert_parsed_items_into_schema(
     }
 
     for (abstract_parent_entity_name, concrete_child_entity_names) in supertype_to_subtype_map {
+        // An object type can implement an interface that is not defined
+        if !schema.item.contains_key(&abstract_parent_entity_name) {
+            schema.non_fatal_diagnostics.push(Diagnostic::new(
+                format!(
+                    "`{abstract_parent_entity_name}` is not defined, but it is implemented by {}.",
+                    concrete_child_entity_names
+                        .iter()
+                        .map(|name| format!("`{name}`"))
+                        .collect::<Vec<_>>()
+                        .join(", ")
+                ),
+                None,
+            ));
+            continue;
+        }
+
         let typename_entity_name = format!("{}__discriminator", abstract_parent_entity_name)
             .intern()
             .to::<EntityName>()
